@@ -6,6 +6,12 @@ ALL = ["C%02d" % i for i in range(1, 21)]
 
 WRAP_NOTE = "Shaped runs are synthetic (generator asserts the shaper output contract); break opportunities come from the segmenter (C06). Negative letter spacing is checked for conservation only (measure not monotone)."
 CHECKS = {
+ "C06": dict(
+   level="exploration",
+   text="Every string up to the tier's length over rule-class alphabets computed from the library's own lookups (49 line, 21 grapheme, 29 word and 127 joint signatures) is segmented by one long-lived Segmenter per shard and compared boundary by boundary (line incl. mandatory, grapheme, word segments) with a declarative evaluation of the UAX#14/#29 rule lists; all ordered reuse pairs of short strings with partially drained iterators.",
+   note="Reference written from the rule text (ref/uaxref), sharing only the class lookups with the library (tables are decided by C20). LB25/LB13 in the Example-7 tailoring; no GB9c.",
+   technique="bounded exhaustive enumeration over a rule-class quotient alphabet against a reference model (E1) + depth-2 reuse histories",
+   design="1/C06 + Appendix B", engine="E1 enum"),
  "C08": dict(
    level="exploration",
    text="(real) every text over a 9-symbol bidi alphabet (letters of both directions on two faces, digit, space, RLI/LRI/PDI) up to the tier's length, both default directions, itemised by the real Segmenter.Split, wrapped at every critical width with/without truncator (both truncator directions); (synth) the whole C02 enumeration of synthetic runs with arbitrary direction vectors. Each line's VisualIndex is compared with UAX#9 rule L2 on reference embedding levels; the trimmed glyph must be the visually last one.",
